@@ -127,6 +127,9 @@ func SettleSites(fn *ssa.Function, kind string, isMsg func(ssa.Value) bool, dept
 		if depth <= 0 {
 			continue
 		}
+		if _, isCall := cl.(*ssa.Call); !isCall {
+			continue // a deferred / spawned helper does not settle at this program point
+		}
 		cal := CalleeFn(cl.Common())
 		if cal == nil || cal.Pkg != fn.Pkg || len(cal.Blocks) == 0 {
 			continue
